@@ -3,3 +3,4 @@ pub mod lockdep;
 pub mod utf16;
 pub mod luavm;
 pub mod lspshape;
+pub mod treedump;
